@@ -439,9 +439,9 @@ def replayer(v):
     return (False, 'native agrees with the abstract machine')
 
 
-def main(tier, seed, pid='C03', halting=False):
+def main(tier, seed, pid='C03', halting=False, extra_jobs=(), replayer_fn=None):
     chk = H.Check(pid, tier, seed, crates=('core',))
-    chk.replayer = replayer
+    chk.replayer = replayer_fn or replayer
     if tier == 'quick':
         chk.job(job_run, 'run:3lines,5iter', n=3, J=5, halting=halting, pid=pid)
         chk.job(job_run, 'run:4lines,4iter', n=4, J=4, halting=halting, pid=pid)
@@ -456,6 +456,7 @@ def main(tier, seed, pid='C03', halting=False):
     chk.job(job_run_instruction_lemma, 'step:run_instruction lemma', pid=pid)
     chk.job(job_on_error_lemma, 'step:on_error lemma', pid=pid)
     chk.job(job_create_runtime_lemma, 'step:label-table lemma', n=N, pid=pid)
+    for fn_, name_, kw_ in extra_jobs: chk.job(fn_, name_, **kw_)
     chk.bounds['step_lemmas'] = 'one fetch/execute iteration from an arbitrary state over programs of 0..%d symbolic lines; callees as arbitrary results (DESIGN.md 8.7)' % N
     chk.assumptions = ['programs are given as instruction vectors to runner::run (run_script = parse_text + run; the parser half is C01/C08)',
                        'scripted commands are harness models returning a fully symbolic CommandResult per fetch/execute iteration',
